@@ -111,12 +111,30 @@ fn seal_ap(f: &mut [u8]) {
 }
 
 pub fn frame_with_ac(df: u8, code: u16) -> Vec<u8> {
+    frame_with_ac_hdr(df, code, 0)
+}
+
+/// `hdr`: the 14 header bits between the format number and the altitude code (VS CC SL RI of DF0/16, FS DR UM of
+/// DF4/20): context that must not change the altitude
+pub fn frame_with_ac_hdr(df: u8, code: u16, hdr: u16) -> Vec<u8> {
     let long = df & 0x10 != 0;
     let mut f = vec![0u8; if long { 14 } else { 7 }];
     f[0] = df << 3;
+    set_bits(&mut f, 5, 14, hdr as u64 & 0x3fff);
     set_bits(&mut f, 19, 13, code as u64);
     seal_ap(&mut f);
     f
+}
+
+/// header contexts: each of the 14 bits alone, all set, two alternating patterns, every flight status / VS-CC-SL
+/// combination of the first three bits
+pub fn header_contexts() -> Vec<u16> {
+    let mut v: Vec<u16> = (0..14).map(|b| 1u16 << b).collect();
+    v.extend([0x3fff, 0x1555, 0x2aaa]);
+    v.extend((3..8u16).map(|fs| fs << 11));
+    v.sort();
+    v.dedup();
+    v
 }
 
 fn ac_of(m: &Message) -> Option<u16> {
@@ -163,7 +181,11 @@ fn acceptable(std: Option<i32>, got: Option<u16>) -> bool {
 }
 
 fn check_ac13(r: &RefAlt, df: u8, code: u16) -> Option<(String, String)> {
-    let f = frame_with_ac(df, code);
+    check_ac13_hdr(r, df, code, 0)
+}
+
+fn check_ac13_hdr(r: &RefAlt, df: u8, code: u16, hdr: u16) -> Option<(String, String)> {
+    let f = frame_with_ac_hdr(df, code, hdr);
     let m = match decode(&f) {
         Ok(m) => m,
         Err(e) => return Some((format!("ac13:decode:DF{df}"), format!("frame {} (AC={code:#06x}) {e}", hexs(&f)))),
@@ -264,7 +286,11 @@ fn check_id(code: u16) -> Option<(String, String)> {
 }
 
 fn check_squawk_frame(df: u8, code: u16) -> Option<(String, String)> {
-    let f = frame_with_ac(df, code);
+    check_squawk_frame_hdr(df, code, 0)
+}
+
+fn check_squawk_frame_hdr(df: u8, code: u16, hdr: u16) -> Option<(String, String)> {
+    let f = frame_with_ac_hdr(df, code, hdr);
     let m = match decode(&f) {
         Ok(m) => m,
         Err(e) => return Some((format!("id13:decode:DF{df}"), format!("frame {} {e}", hexs(&f)))),
@@ -285,11 +311,18 @@ pub fn run(_ctx: &Ctx, rep: &Report) {
     let mut outs: BTreeMap<String, u64> = BTreeMap::new();
     // (1) all 2^13 AC codes in DF 4, 0, 16, 20
     let mut n = 0u64;
+    let hdrs = header_contexts();
     for df in [4u8, 0, 16, 20] {
         for code in 0..8192u16 {
             n += 1;
             if let Some((c, w)) = check_ac13(&r, df, code) {
                 rep.violation(&c, w, json!({"kind":"ac13","df":df,"code":code}));
+            }
+            for hdr in &hdrs {
+                n += 1;
+                if let Some((c, w)) = check_ac13_hdr(&r, df, code, *hdr) {
+                    rep.violation(&format!("{c}:header"), format!("{w} (header bits {hdr:#06x})"), json!({"kind":"ac13","df":df,"code":code,"hdr":hdr}));
+                }
             }
             if df == 4 {
                 let k = match r.ac13(code) {
@@ -389,6 +422,12 @@ pub fn run(_ctx: &Ctx, rep: &Report) {
             if let Some((c, w)) = check_squawk_frame(df, code) {
                 rep.violation(&c, w, json!({"kind":"idframe","df":df,"code":code}));
             }
+            for hdr in &hdrs {
+                n4 += 1;
+                if let Some((c, w)) = check_squawk_frame_hdr(df, code, *hdr) {
+                    rep.violation(&format!("{c}:header"), format!("{w} (header bits {hdr:#06x})"), json!({"kind":"idframe","df":df,"code":code,"hdr":hdr}));
+                }
+            }
         }
     }
     let mut images = std::collections::BTreeSet::new();
@@ -444,11 +483,11 @@ pub fn replay(w: &Value, rep: &Report) {
             let _ = decode(&unhex(w["after"].as_str().unwrap_or("")));
             check_ac12(&r, w["tc"].as_u64().unwrap() as u8, code).map(|(c, t)| (format!("sequence:{c}"), t))
         }
-        Some("ac13") => check_ac13(&r, w["df"].as_u64().unwrap() as u8, code),
+        Some("ac13") => check_ac13_hdr(&r, w["df"].as_u64().unwrap() as u8, code, w["hdr"].as_u64().unwrap_or(0) as u16),
         Some("ac12") => check_ac12(&r, w["tc"].as_u64().unwrap() as u8, code),
         Some("gray") => check_gray(&r, code),
         Some("id") => check_id(code),
-        Some("idframe") => check_squawk_frame(w["df"].as_u64().unwrap() as u8, code),
+        Some("idframe") => check_squawk_frame_hdr(w["df"].as_u64().unwrap() as u8, code, w["hdr"].as_u64().unwrap_or(0) as u16),
         Some("gray-pair") => {
             let (a, b) = (w["a"].as_u64().unwrap() as u16, w["b"].as_u64().unwrap() as u16);
             match (gray2alt(a), gray2alt(b)) {
